@@ -26,7 +26,7 @@ fn walk(v: &Value, path: &mut Vec<P>, out: &mut Vec<Vec<P>>) {
     match v {
         Value::Object(m) => {
             if m.contains_key("k") { out.push(path.clone()); }
-            for (k, x) in m { if k == "ty" || k == "m" || k == "cty" { continue; } path.push(P::K(k.clone())); walk(x, path, out); path.pop(); }
+            for (k, x) in m { if k == "ty" || k == "m" || k == "cty" || k == "pty" { continue; } path.push(P::K(k.clone())); walk(x, path, out); path.pop(); }
         }
         Value::Array(a) => for (i, x) in a.iter().enumerate() { path.push(P::I(i)); walk(x, path, out); path.pop(); },
         _ => {}
@@ -40,7 +40,7 @@ pub fn strip(v: &Value) -> Value {
             let k = m.get("k").and_then(|x| x.as_str()).unwrap_or("");
             let keep_ty = matches!(k, "num" | "pnum" | "prange") || !m.contains_key("k");
             let mut o = serde_json::Map::new();
-            for (key, x) in m { if key == "m" || key == "cty" || key == "nosfx" || (key == "ty" && !keep_ty) { continue; } o.insert(key.clone(), strip(x)); }
+            for (key, x) in m { if key == "m" || key == "cty" || key == "pty" || key == "nosfx" || (key == "ty" && !keep_ty) { continue; } o.insert(key.clone(), strip(x)); }
             // the parser orders the fields of struct literals and struct patterns by name
             if matches!(k, "slit" | "pstruct") { if let Some(Value::Array(fs)) = o.get_mut("fs") { fs.sort_by(|a, b| a["n"].as_str().unwrap_or("").cmp(b["n"].as_str().unwrap_or(""))); } }
             Value::Object(o)
@@ -153,7 +153,7 @@ fn mutants(prog: &Value) -> Vec<(String, Value)> {
             }
             "un" => { if n["op"] == "neg" { let mut x = n.clone(); x["e"] = json!({"k":"num","v":1,"ty":int_ty("u8"),"m":n["m"]}); emit("negation-of-unsigned", path, x, &mut out); } }
             "idx" => { let mut x = n.clone(); x["i"] = json!({"k":"num","v":0,"ty":int_ty("u8"),"m":n["m"]}); emit("index-not-usize", path, x, &mut out); }
-            "assign" => { let mut x = n.clone(); x["n"] = json!("zz_unknown"); emit("unknown-identifier", path, x, &mut out); }
+            "assign" | "opassign" => { let mut x = n.clone(); x["n"] = json!("zz_unknown"); emit("unknown-identifier", path, x, &mut out); }
             _ => {}
         }
     }
